@@ -66,23 +66,28 @@ Qed.
 
 Section Targets.
 Variable w : Q.
-Hypothesis w_pos : 0 < w.
-Variables hot cold : list view.
-Hypothesis Wh : wfs hot.
-Hypothesis Wc : wfs cold.
+Variable d : Q.
+Hypothesis d_nonneg : 0 <= d.
+Hypothesis d_lt_w : d < w.
+(* hot/cold: the streams as the code's activity test sees them; hotR/coldR: the same streams aligned with the grid *)
+Variables hot cold hotR coldR : list view.
+Hypothesis Fh : Forall2 (nearv d) hot hotR.
+Hypothesis Fc : Forall2 (nearv d) cold coldR.
+Hypothesis Wh : wfs hotR.
+Hypothesis Wc : wfs coldR.
 Variable g : list Q.
 Hypothesis Hd : desc g.
 Hypothesis Hne : g <> [].
-Hypothesis Hcov : covers g (eps_all hot cold).
-Hypothesis Hgap : gaps_ok w g.
+Hypothesis Hcov : covers g (eps_all hotR coldR).
+Hypothesis Hgap : gaps_ok w d g.
 
-Let D := Dnet hot cold.
+Let D := Dnet hotR coldR.
 Let rs := raw_rows w hot cold g.
 Let p := pta w hot cold g.
 Let r0 : rrow := mkR 0 0 0 0 0 0 0 0.
 
-Lemma rs_exact : Forall (row_exact hot cold) rs.
-Proof. apply raw_rows_exact; assumption. Qed.
+Lemma rs_exact : Forall (row_exact hotR coldR) rs.
+Proof. apply (raw_rows_exact w d d_nonneg d_lt_w hot cold hotR coldR Fh Fc Wh Wc); assumption. Qed.
 Lemma rs_T : map rT rs = g.
 Proof. apply raw_rows_T. Qed.
 Lemma rs_ne : rs <> [].
@@ -96,18 +101,18 @@ Lemma last_row_T : rT (last rs r0) = last g 0.
 Proof. rewrite <- rs_T. symmetry. apply last_map_gen. apply rs_ne. Qed.
 Lemma last_row_in : In (last rs r0) rs.
 Proof. pose proof rs_ne as N. clear - N. induction rs as [|a t IH]; [contradiction|]. destruct t as [|b t']; [left; reflexivity|]. right. apply IH. discriminate. Qed.
-Lemma row_ex r : In r rs -> row_exact hot cold r.
+Lemma row_ex r : In r rs -> row_exact hotR coldR r.
 Proof. intro H. pose proof rs_exact as F. rewrite Forall_forall in F. apply F; exact H. Qed.
 
-Lemma total_hot : lastq (map rch rs) == duty hot.
+Lemma total_hot : lastq (map rch rs) == duty hotR.
 Proof.
   rewrite (last_map_ne rch rs r0 rs_ne). destruct (row_ex _ last_row_in) as [E _]. rewrite E, last_row_T.
-  destruct (covers_split hot cold g Hcov) as [Ch _]. apply heat_above_last; assumption.
+  destruct (covers_split hotR coldR g Hcov) as [Ch _]. apply heat_above_last; assumption.
 Qed.
-Lemma total_cold : lastq (map rcc rs) == duty cold.
+Lemma total_cold : lastq (map rcc rs) == duty coldR.
 Proof.
   rewrite (last_map_ne rcc rs r0 rs_ne). destruct (row_ex _ last_row_in) as [_ E]. rewrite E, last_row_T.
-  destruct (covers_split hot cold g Hcov) as [_ Cc]. apply heat_above_last; assumption.
+  destruct (covers_split hotR coldR g Hcov) as [_ Cc]. apply heat_above_last; assumption.
 Qed.
 
 Definition nraw : list Q := map (fun r => rsub (rch r) (rcc r)) rs.
@@ -136,15 +141,15 @@ Proof.
   destruct first_row as [t0 [g' [rest [Eg E0]]]]. unfold nraw. rewrite E0. cbn [map hd rch rcc].
   rewrite !rsub_eq. ring.
 Qed.
-Lemma Qc_closed : Qc_of p == duty hot - duty cold - mn.
+Lemma Qc_closed : Qc_of p == duty hotR - duty coldR - mn.
 Proof.
   unfold Qc_of, p, pta. cbn [pHn]. fold rs. fold nraw. fold mn. unfold nraw. rewrite map_map.
   rewrite (last_map_ne (fun r => rsub (rsub (rch r) (rcc r)) mn) rs r0 rs_ne).
   rewrite rsub_eq, (nraw_D _ last_row_in), last_row_T. unfold D, Dnet.
-  destruct (covers_split hot cold g Hcov) as [Ch Cc].
-  rewrite (heat_above_last g hot Wh Hd Ch), (heat_above_last g cold Wc Hd Cc). ring.
+  destruct (covers_split hotR coldR g Hcov) as [Ch Cc].
+  rewrite (heat_above_last g hotR Wh Hd Ch), (heat_above_last g coldR Wc Hd Cc). ring.
 Qed.
-Lemma Qr_closed : Qr_of p == duty hot - Qc_of p.
+Lemma Qr_closed : Qr_of p == duty hotR - Qc_of p.
 Proof.
   unfold Qr_of. rewrite rsub_eq. fold (Qc_of p). apply Qplus_inj_r.
   unfold p, pta. cbn [pHh]. fold rs. rewrite map_map.
@@ -156,63 +161,63 @@ Qed.
 Theorem Qh_is_sup : (forall T, D T <= Qh_of p) /\ (exists T, In T g /\ D T == Qh_of p).
 Proof.
   split.
-  - intro T. rewrite Qh_closed. destruct (sup_on_grid hot cold Wh Wc g Hd Hne Hcov T) as [K|[T' [HT' K]]].
+  - intro T. rewrite Qh_closed. destruct (sup_on_grid hotR coldR Wh Wc g Hd Hne Hcov T) as [K|[T' [HT' K]]].
     + destruct first_row as [t0 [g' [rest [Eg E0]]]].
       assert (Hin : In (mkR t0 0 0 0 0 0 0 0) rs) by (rewrite E0; left; reflexivity).
       pose proof (mn_le _ Hin) as M. simpl in M.
-      pose proof (D_top hot cold g Hd Hne Hcov) as Dt. rewrite Eg in Dt. simpl in Dt. fold D in Dt. fold D in K. lra.
+      pose proof (D_top hotR coldR g Hd Hne Hcov) as Dt. rewrite Eg in Dt. simpl in Dt. fold D in Dt. fold D in K. lra.
     + destruct (rs_of_T T' HT') as [r [Hr Er]]. pose proof (mn_le r Hr) as M. rewrite Er in M. fold D in K. lra.
   - destruct mn_attained as [r [Hr E]]. exists (rT r). split; [apply rs_in_T; exact Hr|]. rewrite Qh_closed, E. ring.
 Qed.
-Theorem Qc_balance : Qc_of p == Qh_of p - duty cold + duty hot.
+Theorem Qc_balance : Qc_of p == Qh_of p - duty coldR + duty hotR.
 Proof. rewrite Qc_closed, Qh_closed. ring. Qed.
-Theorem Qr_balance : Qr_of p == duty hot - Qc_of p.
+Theorem Qr_balance : Qr_of p == duty hotR - Qc_of p.
 Proof. exact Qr_closed. Qed.
 Theorem targets_nonneg : 0 <= Qh_of p /\ 0 <= Qc_of p /\ 0 <= Qr_of p.
 Proof.
   destruct Qh_is_sup as [S [T [HT ET]]].
   assert (H0 : 0 <= Qh_of p).
-  { destruct first_row as [t0 [g' [rest [Eg _]]]]. pose proof (D_top hot cold g Hd Hne Hcov) as Dt. rewrite Eg in Dt. simpl in Dt.
+  { destruct first_row as [t0 [g' [rest [Eg _]]]]. pose proof (D_top hotR coldR g Hd Hne Hcov) as Dt. rewrite Eg in Dt. simpl in Dt.
     fold D in Dt. specialize (S t0). lra. }
-  assert (Hb : D (last g 0) == duty cold - duty hot).
-  { unfold D, Dnet. destruct (covers_split hot cold g Hcov) as [Ch Cc].
-    rewrite (heat_above_last g hot Wh Hd Ch), (heat_above_last g cold Wc Hd Cc). reflexivity. }
+  assert (Hb : D (last g 0) == duty coldR - duty hotR).
+  { unfold D, Dnet. destruct (covers_split hotR coldR g Hcov) as [Ch Cc].
+    rewrite (heat_above_last g hotR Wh Hd Ch), (heat_above_last g coldR Wc Hd Cc). reflexivity. }
   split; [exact H0|]. split.
   - rewrite Qc_balance. specialize (S (last g 0)). lra.
   - rewrite Qr_balance, Qc_balance. rewrite <- ET. unfold D, Dnet.
-    pose proof (heat_above_le_duty cold T Wc). pose proof (heat_above_nonneg hot T Wh). lra.
+    pose proof (heat_above_le_duty coldR T Wc). pose proof (heat_above_nonneg hotR T Wh). lra.
 Qed.
 
 (* the independent reference value (maximum over the streams' own end points) is the same number *)
-Theorem Qh_star_eq : Qh_star hot cold == Qh_of p.
+Theorem Qh_star_eq : Qh_star hotR coldR == Qh_of p.
 Proof.
   unfold Qh_star. rewrite Qred_correct. destruct Qh_is_sup as [S [T [HT ET]]]. destruct targets_nonneg as [H0 _].
   apply Qle_antisym.
-  - destruct (qmax_list_attained (map (Dnet hot cold) (endpoints hot ++ endpoints cold)) 0) as [E|[y [Hy E]]]; rewrite E; [exact H0|].
+  - destruct (qmax_list_attained (map (Dnet hotR coldR) (endpoints hotR ++ endpoints coldR)) 0) as [E|[y [Hy E]]]; rewrite E; [exact H0|].
     apply in_map_iff in Hy. destruct Hy as [e [Ee _]]. rewrite <- Ee. apply S.
   - rewrite <- ET. fold D.
     (* D T is bounded by the maximum over the end points: apply sup_on_grid to the grid made of the end points themselves *)
-    set (es := endpoints hot ++ endpoints cold).
+    set (es := endpoints hotR ++ endpoints coldR).
     assert (B : forall T, D T <= qmax_list 0 (map D es)).
     { intro T1. destruct (sorted_of es) as [|a0 t0] eqn:Eg2.
       - (* no end points: no streams *)
         assert (Hes : es = []).
         { destruct es as [|e0 es']; [reflexivity|]. destruct (sorted_of_has (e0 :: es') e0 ltac:(left; reflexivity)) as [z [Hz _]].
           rewrite Eg2 in Hz. destruct Hz. }
-        assert (hot = [] /\ cold = []).
-        { unfold es in Hes. destruct hot as [|s ?]; destruct cold as [|s' ?]; simpl in Hes; try discriminate; auto. }
+        assert (hotR = [] /\ coldR = []).
+        { unfold es in Hes. destruct hotR as [|s ?]; destruct coldR as [|s' ?]; simpl in Hes; try discriminate; auto. }
         destruct H as [Eh Ec]. rewrite Hes. unfold D, Dnet. rewrite Eh, Ec. simpl. lra.
       - assert (Hdesc : desc (sorted_of es)) by apply sorted_of_desc.
         assert (N2 : sorted_of es <> []) by (rewrite Eg2; discriminate).
-        assert (C2 : covers (sorted_of es) (eps_all hot cold)) by (intros e He; apply sorted_of_has; exact He).
-        destruct (sup_on_grid hot cold Wh Wc (sorted_of es) Hdesc N2 C2 T1) as [K|[T' [HT' K]]].
+        assert (C2 : covers (sorted_of es) (eps_all hotR coldR)) by (intros e He; apply sorted_of_has; exact He).
+        destruct (sup_on_grid hotR coldR Wh Wc (sorted_of es) Hdesc N2 C2 T1) as [K|[T' [HT' K]]].
         + fold D in K. pose proof (qmax_list_ge_acc (map D es) 0). lra.
         + fold D in K. pose proof (qmax_list_ge (map D es) 0 (D T') ltac:(apply in_map; apply sorted_of_only; exact HT')). lra. }
     apply B.
 Qed.
-Theorem Qc_star_eq : Qc_star hot cold == Qc_of p.
+Theorem Qc_star_eq : Qc_star hotR coldR == Qc_of p.
 Proof. unfold Qc_star. rewrite Qred_correct, Qh_star_eq, Qc_balance. reflexivity. Qed.
-Theorem Qr_star_eq : Qr_star hot cold == Qr_of p.
+Theorem Qr_star_eq : Qr_star hotR coldR == Qr_of p.
 Proof. unfold Qr_star. rewrite Qred_correct, Qc_star_eq, Qr_balance. reflexivity. Qed.
 
 (* C05 on the model: every row of the table carries the exact heat contents *)
@@ -223,7 +228,7 @@ Proof. unfold Qc_of, p, pta. cbn [pHn]. fold rs. fold nraw. fold mn. unfold nraw
 
 Theorem curves_exact i T hh hc hn :
   nth_error (pT p) i = Some T -> nth_error (pHh p) i = Some hh -> nth_error (pHc p) i = Some hc -> nth_error (pHn p) i = Some hn ->
-  hh == heat_below hot T /\ hc == Qc_of p + heat_below cold T /\ hn == hc - hh /\ hn == Qh_of p - D T /\ 0 <= hn.
+  hh == heat_below hotR T /\ hc == Qc_of p + heat_below coldR T /\ hn == hc - hh /\ hn == Qh_of p - D T /\ 0 <= hn.
 Proof.
   intros ET Eh Ec En.
   unfold p, pta in ET, Eh, Ec, En. cbn [pT pHh pHc pHn] in ET, Eh, Ec, En. fold rs in ET, Eh, Ec, En.
@@ -231,7 +236,7 @@ Proof.
   destruct (nth_error rs i) as [r|] eqn:E; simpl in ET, Eh, Ec, En; [|discriminate].
   inversion ET; inversion Eh; inversion Ec; inversion En; subst T hh hc hn. clear ET Eh Ec En.
   pose proof (nth_error_In _ _ E) as Hr. destruct (row_ex r Hr) as [A B].
-  pose proof (heat_above_below hot (rT r) Wh) as Ph. pose proof (heat_above_below cold (rT r) Wc) as Pc.
+  pose proof (heat_above_below hotR (rT r) Wh) as Ph. pose proof (heat_above_below coldR (rT r) Wc) as Pc.
   pose proof total_hot as TH. pose proof total_cold as TC. pose proof shift_is_Qc as SQ. unfold nraw, mn in SQ. unfold nraw in SQ.
   pose proof (nraw_D r Hr) as ND. pose proof Qh_closed as QH. pose proof Qc_closed as QC. pose proof (mn_le r Hr) as ML.
   unfold mn, nraw in *. 
@@ -246,7 +251,7 @@ Proof.
   - unfold p, pta. cbn [pHn]. fold rs. rewrite map_map, nth_error_map, Hi. reflexivity.
   - rewrite rsub_eq, (nraw_D r Hr), E. ring.
 Qed.
-Theorem spans_exact : hd 0 (pHh p) == duty hot /\ lastq (pHh p) == 0 /\ hd 0 (pHc p) - lastq (pHc p) == duty cold.
+Theorem spans_exact : hd 0 (pHh p) == duty hotR /\ lastq (pHh p) == 0 /\ hd 0 (pHc p) - lastq (pHc p) == duty coldR.
 Proof.
   unfold p, pta. cbn [pHh pHc]. fold rs. fold nraw. fold mn. rewrite !map_map.
   rewrite (last_map_ne (fun r => rsub (lastq (map rch rs)) (rch r)) rs r0 rs_ne).
